@@ -355,6 +355,34 @@ Example C06_refused_ids_burned :
     [C (FHeaders 1 10 true true); C (FHeaders 5 10 true true); C (FHeaders 5 10 true true)] = false.
 Proof. vm_compute. split; reflexivity. Qed.
 
+(* a new stream uses the settings held at the OPEN step (not those held when the request was queued
+   for a slot): its header block is exactly hdr_frames cut by the MAX_FRAME_SIZE held then, every
+   frame of it fits that limit, its send window is the INITIAL_WINDOW_SIZE held then *)
+Theorem C06_new_stream_uses_current_settings : forall c hlen es c' out,
+  0 <= cc_init_win c <= 2147483647 -> 0 <= cc_prio_len c ->
+  conn_step c (EOpen hlen es) = (c', out) -> out <> [] ->
+  out = cl (hdr_frames (cc_next_id c) hlen (cc_max_frame c) (cc_prio_len c) es) /\
+  Forall (fun f => match frame_len f with Some l => l <= cc_max_frame c | None => True end)
+         (hdr_frames (cc_next_id c) hlen (cc_max_frame c) (cc_prio_len c) es) /\
+  exists s, cc_streams c' = s :: cc_streams c /\ cs_id s = cc_next_id c /\ cs_flow s = cc_init_win c.
+Proof. exact new_stream_uses_current_settings. Qed.
+Print Assumptions C06_new_stream_uses_current_settings.
+
+(* queued under limit 1 while MAX_FRAME_SIZE goes 65536 -> 16384: the 40000-byte block written once
+   the slot is free is cut at 16384; the single 40000-byte HEADERS frame is rejected *)
+Example C06_queued_request_uses_lowered_frame_size :
+  trace_of 0 0 1000 1000
+    [ESettings [(3,1);(5,65536)]; EOpen 10 true; EOpen 40000 true; ESettings [(5,16384)]; EOpen 40000 true;
+     EPeerHeaders 1 true; EForget 1; EOpen 40000 true] =
+    [P (FSettings [(3, 1); (5, 65536)]); C FSettingsAck; C (FHeaders 1 10 true true);
+     P (FSettings [(5, 16384)]); C FSettingsAck; P (FHeaders 1 0 true true);
+     C (FHeaders 3 16384 false true); C (FContinuation 3 16384 false); C (FContinuation 3 7232 true)] /\
+  accepts (mon_init 1000 1000)
+    [P (FSettings [(3, 1); (5, 65536)]); C FSettingsAck; C (FHeaders 1 10 true true);
+     P (FSettings [(5, 16384)]); C FSettingsAck; P (FHeaders 1 0 true true);
+     C (FHeaders 3 40000 true true)] = false.
+Proof. vm_compute. split; reflexivity. Qed.
+
 (* non-vacuity: a legal configuration (priority fields on HEADERS, Firefox-like PRIORITY frames up
    to stream 13, stream window 1000) and an interleaving with a 40000-byte header block, the
    peer lowering MAX_CONCURRENT_STREAMS to 1 and INITIAL_WINDOW_SIZE to 100 and then 0 (window
